@@ -3605,19 +3605,11 @@ _override("C05-prefix-seqno-max", [(KS, "let iter = self.tree.prefix(prefix, non
 _override("F08-C06-first_key_value-at-max", [(KS, "        self.tree.first_key_value(nonce.instant, None)", "        self.tree.first_key_value(lsm_tree::SeqNo::MAX, None)")])
 _override("F08-C06-last_key_value-at-max", [(KS, "        self.tree.last_key_value(nonce.instant, None)", "        self.tree.last_key_value(lsm_tree::SeqNo::MAX, None)")])
 _override("F08-C06-is_empty-at-max", [(KS, "        self.tree.is_empty(nonce.instant, None)", "        self.tree.is_empty(lsm_tree::SeqNo::MAX, None)")])
-_override("F25-C17-populated-folder-reinitialised", [(DB, """                if lock_path.try_exists()? {
-                    LockedFileGuard::try_acquire(&lock_path)?;
-                }
-
-                return Err(crate::Error::InvalidVersion(None));
-            }
-""", """                if lock_path.try_exists()? {
-                    LockedFileGuard::try_acquire(&lock_path)?;
-                }
-
-                log::warn!("version marker missing");
-            }
-""")])
+_override("F25-C17-populated-folder-reinitialised", [(DB, """                if !Self::is_interrupted_creation(&config.path)? {
+                    return Err(crate::Error::InvalidVersion(None));
+                }""", """                if !Self::is_interrupted_creation(&config.path)? {
+                    log::warn!("version marker missing");
+                }""")])
 
 # ---- mutation-sweep survivors that break a property (tools/mutation_sweep.py; triaged by reading)
 B("SW-C09-empty-batch-syncall-not-a-barrier", "C09", "C09:R-C09.8:batch::WriteBatch::commit", BATCH,
@@ -3760,3 +3752,46 @@ E("EQ-replay-skip-as-if-let", DB, """                        let Some(keyspace) 
                             Some(keyspace) => keyspace,
                             None => continue,
                         };""", props=["C04", "C02", "C12", "C11", "C03"], nth=0)
+
+# ---- repair 34 (resumable first creation) reverted / broken
+B("F34-C02-marker-created-under-its-final-name", "C02", "C02:R-C02.10:db::Database::create_new:version-marker-becomes-visible-only-when-complete", DB,
+  """        let marker_tmp_path = config.path.join(VERSION_MARKER_TMP);
+        let mut marker = std::fs::File::create(&marker_tmp_path)?;
+        FormatVersion::V3.write_file_header(&mut marker)?;
+        marker.sync_all()?;
+        std::fs::rename(&marker_tmp_path, config.path.join(VERSION_MARKER))?;""", """        let _ = VERSION_MARKER_TMP;
+        let mut marker = std::fs::File::create(config.path.join(VERSION_MARKER))?;
+        FormatVersion::V3.write_file_header(&mut marker)?;
+        marker.sync_all()?;""")
+B("C02-marker-renamed-before-it-is-synced", "C02", "C02:R-C02.10:db::Database::create_new:version-marker-becomes-visible-only-when-complete", DB,
+  """        marker.sync_all()?;
+        std::fs::rename(&marker_tmp_path, config.path.join(VERSION_MARKER))?;""", """        std::fs::rename(&marker_tmp_path, config.path.join(VERSION_MARKER))?;
+        marker.sync_all()?;""")
+B("F34-C02-interrupted-creation-still-refused", "C02", "C02:R-C02.10:db::Database::create_or_recover:interrupted-creation-is-resumed", DB,
+  """                if !Self::is_interrupted_creation(&config.path)? {
+                    return Err(crate::Error::InvalidVersion(None));
+                }""", """                let _ = Self::is_interrupted_creation(&config.path)?;
+                return Err(crate::Error::InvalidVersion(None));""")
+B("F34-C02-leftover-journal-not-removed", "C02", "C02:R-C02.10:db::Database::create_new:step-Journal::create_new", DB,
+  """        if active_journal_path.try_exists()? && Self::is_interrupted_creation(&config.path)? {
+            std::fs::remove_file(&active_journal_path)?;
+        }
+""", "")
+B("C17-create-new-removes-any-existing-first-journal", "C17", "C17:R-C17.6:db::Database::create_new:create-new-removes-only", DB,
+  "        if active_journal_path.try_exists()? && Self::is_interrupted_creation(&config.path)? {", "        if active_journal_path.try_exists()? {")
+B("C17-nonempty-keyspaces-folder-counts-as-interrupted-creation", "C17", "C17:R-C17.6:db::Database::is_interrupted_creation", DB,
+  """                if std::fs::read_dir(dirent.path())?.next().is_some() {
+                    return Ok(false);
+                }
+                continue;""", """                continue;""")
+B("C17-populated-folder-resumed-like-an-interrupted-creation", "C17", "C17:R-C17.6:db::Database::create_or_recover:populated-folder-without-marker", DB,
+  """                if !Self::is_interrupted_creation(&config.path)? {
+                    return Err(crate::Error::InvalidVersion(None));
+                }""", """                if !Self::is_interrupted_creation(&config.path)? {
+                    log::warn!("version marker missing");
+                }""")
+B("C17-create-new-does-not-look-for-an-existing-marker", "C17", "C17:R-C17.6:db::Database::create_new:existing-marker-refused", DB,
+  """        if config.path.join(VERSION_MARKER).try_exists()? {
+            return Err(std::io::Error::from(std::io::ErrorKind::AlreadyExists).into());
+        }
+""", "")
